@@ -7,7 +7,8 @@
 (*   infmt    : "fastq" | "fasta"                                            *)
 (*   incont   : "plain" | "gz" | "gzmulti" | "bz2" | "xz"                     *)
 (*   inlayout : "single" | "two" | "interleaved"                             *)
-(*   outname  : ".fastq" | ".fq" | ".fasta" | ".fa" | "stdout"                *)
+(*   outname  : ".fastq" | ".fq" | ".fasta" | ".fa" | ".fastq.fasta" |        *)
+(*              ".fa.fastq" | "stdout"                                        *)
 (*   outcont  : "plain" | "gz" | "bz2" | "xz"   (plain for stdout)            *)
 (*   outlayout: "single" | "two" | "interleaved"                             *)
 (*   redirect : "none" | ".fastq" | ".fasta"  (name of a --too-short-output  *)
@@ -19,7 +20,10 @@ EXTENDS Integers, Sequences, FiniteSets
 InFmts == {"fastq", "fasta"}
 InConts == {"plain", "gz", "gzmulti", "bz2", "xz"}
 Layouts == {"single", "two", "interleaved"}
-OutNames == {".fastq", ".fq", ".fasta", ".fa", "stdout"}
+\* (the last format suffix decides: "x.fastq.fasta" is a FASTA name, "x.fa.fastq" a FASTQ name)
+OutNames == {".fastq", ".fq", ".fasta", ".fa", ".fastq.fasta", ".fa.fastq", "stdout"}
+FastaNames == {".fasta", ".fa", ".fastq.fasta"}
+FastqNames == {".fastq", ".fq", ".fa.fastq"}
 OutConts == {"plain", "gz", "bz2", "xz"}
 
 Paired(c) == c.inlayout # "single"
@@ -38,13 +42,13 @@ Valid(c) ==
 \* FASTQ cannot be written without qualities: a name that asks for FASTQ while the input is FASTA cannot be
 \* honoured.  The format is determined by the name "identically for every compression suffix and every number
 \* of cores", so such a run must be refused identically (and never write FASTA into a file named .fastq).
-MustRefuse(c) == c.infmt = "fasta" /\ (c.outname \in {".fastq", ".fq"} \/ c.redirect = ".fastq")
+MustRefuse(c) == c.infmt = "fasta" /\ (c.outname \in FastqNames \/ c.redirect = ".fastq")
 
 \* The output format: the output file name decides (before any compression suffix); on standard output
 \* --fasta decides; otherwise the input format is kept.
 OutFormat(c) ==
-  IF c.outname \in {".fasta", ".fa"} THEN "fasta"
-  ELSE IF c.outname \in {".fastq", ".fq"} THEN "fastq"
+  IF c.outname \in FastaNames THEN "fasta"
+  ELSE IF c.outname \in FastqNames THEN "fastq"
   ELSE IF c.fastaflag THEN "fasta"
   ELSE c.infmt
 
